@@ -10,6 +10,7 @@ from sfv.rt import recov
 from sfv.rt.par import pmap
 
 PHASES = ["schedule", "transfer", "execute"]
+EXC_TYPES = ["ConnectionResetError", "OSError", "ValueError", "TimeoutError"]
 K_SHARED = "workflow-fails-below-retry-limit:shared-producer-rolled-back-once-per-consumer-recovery"
 
 
@@ -45,6 +46,8 @@ def plans(rng: random.Random, shape: dict, quick: bool) -> list[list[dict]]:
         step, tag = rng.choice(jobs)
         kind = rng.choice(["soft", "failstop"])
         entry = {"step": step, "tag": tag, "phase": rng.choice(PHASES), "kind": kind, "count": rng.choice([1, 1, 2, 3])}
+        if rng.random() < 0.35:      # the failure surfaces as a non-StreamFlow exception (connector / OS / plugin error)
+            entry["exc"] = rng.choice(EXC_TYPES)
         if kind == "failstop" and rng.random() < 0.5 and shape["kind"] in ("pipeline", "scatter", "diamond"):
             idx = jobs.index((step, tag))
             anc = [j for j in jobs[:idx] if shape["kind"] != "scatter" or j[0] != step][-2:]
@@ -69,6 +72,8 @@ def deps_of(shape: dict, names: list[str]) -> dict[str, list[str]]:
             d[n] = [f"/s{i - 1}/0"] if i else []
         elif k == "scatter":
             d[n] = [] if step == "/a" else (["/a/0"] if step == "/b" else sorted(x for x in names if x.startswith("/b/")))
+        elif k == "record":
+            d[n] = {"/a": [], "/b": ["/a/0"]}[step]
         elif k == "diamond":
             d[n] = {"/a": [], "/b1": ["/a/0"], "/b2": ["/a/0"], "/c": ["/b1/0", "/b2/0"]}[step]
         else:
@@ -103,12 +108,13 @@ class C16(Property):
     translators = []
     rule = ("real workflows built with the repo's RecoveryTranslator (pipelines 1..5, scatter/gather 1..12, loops 0..6, diamond) run with the rollback "
             "failure manager (max_retries 6) and OUR failure injectors: per shape a failure-free reference run, single failure points (job, phase in "
-            "schedule/transfer/execute, soft | fail-stop with exactly the named jobs' directories deleted, count 1..3) and several jobs failing at once; "
+            "schedule/transfer/execute, soft | fail-stop with exactly the named jobs' directories deleted, count 1..3, raised as the repo's "
+            "WorkflowExecutionException or as ConnectionResetError / OSError / ValueError / TimeoutError) and several jobs failing at once; "
             "compared: outputs (tags and file contents) with the reference run, all steps COMPLETED, no hang; and the observed sequence of stagings, "
             "executions, losses and failed attempts is replayed on the Lean job-step model (every action must be enabled, available values = "
             "failure-free values). Corpus: the known finding, scatter re-run inside a recovery workflow, and a forced interleaving (event gates) in which "
             "a second recovery attaches to a running one after the shared producer's re-run has emitted its output but before the scheduler sees it "
-            "completed (hang = violation). Quick: ~7 shapes x 3-4 plans; thorough: 17 shapes x 7 plans.")
+            "completed (hang = violation), and a producer whose output is a record of three files of which one is lost. Quick: ~7 shapes x 3-4 plans; thorough: 17 shapes x 7 plans.")
     trusted_base = ["recovery harness harness/sfv/rt/recov.py (own injectors; events logged at transfer / execute / deletion)",
                     "the abstract job-step model collapses schedule+transfer+execute, treats data as values and availability as a store; tags, "
                     "boundary rules, `restore` and the data manager are exercised by the real runs only"]
@@ -117,8 +123,8 @@ class C16(Property):
     level_text = ("grade B, partial: `recovered_outputs_eq_partial` / `recovery_can_complete` / `recovered_run_outputs` proved on the abstract job-step model "
                   "for every failure and recovery sequence; that the engine's recovery is such a sequence is validated on real runs")
     level_note = "Lean kernel; the real recovery machinery (workflow reconstruction, inter-workflow ports, restore) is a runtime layer validated differentially"
-    quick_budget_s = 900
-    thorough_budget_s = 3000
+    quick_budget_s = 2400        # room for one confirmation re-run of a timed-out case (5x its bound), see recov.run_confirmed
+    thorough_budget_s = 6000
     min_nontrivial = 8
 
     def explore(self, ctx: Ctx) -> None:
@@ -158,8 +164,26 @@ class C16(Property):
                           "gates": [{"job": "/b2/0", "attempt": 1, "wait": "a-emitted-again", "timeout": 30},
                                     {"job": "/a/0", "attempt": 2, "phase": "completed", "signal": "a-emitted-again", "wait": "synced:/b2/0",
                                      "timeout": 30}]})
+        # corpus: failures that surface as NON-StreamFlow exceptions in each phase (the `recoverable` wrapper must hand every Exception to the
+        # failure manager, not only WorkflowException): one failure, retry limit 5 => the run completes with the failure-free outputs
+        shp = {"kind": "pipeline", "n": 3}
+        if not any(c["shape"] == shp and c.get("ref") for c in cases):
+            cases.append({"name": f"ref {json.dumps(shp, sort_keys=True)}", "shape": shp, "plan": [], "max_retries": 6, "ref": True})
+        for ph, exc in zip(PHASES, ["ValueError", "OSError", "ConnectionResetError"]):
+            cases.append({"name": f"corpus pipeline3 {ph} failure of s1 raising {exc}", "shape": shp, "max_retries": 5,
+                          "plan": [{"step": "/s1", "tag": "0", "phase": ph, "kind": "soft", "count": 1, "exc": exc}]})
+        # corpus: a's output is a RECORD (ObjectToken) of three files; b (which reads field f1) fails once fail-stop, losing its own
+        # directories and ONE file of the record: the record is lost as a whole (every field must be available), a must be re-run
+        shr = {"kind": "record"}
+        cases.append({"name": f"ref {json.dumps(shr, sort_keys=True)}", "shape": shr, "plan": [], "max_retries": 6, "ref": True})
+        for lost in ([["rec-f1"], ["rec-f0", "rec-f1", "rec-f2"]] if quick else [["rec-f0"], ["rec-f1"], ["rec-f2"], ["rec-f0", "rec-f1", "rec-f2"]]):
+            # (the record is MIXED: three files and the integer field `threshold`, which always survives)
+            cases.append({"name": f"corpus mixed record (3 files + int): b fails fail-stop, {'+'.join(lost)} of a's record lost", "shape": shr,
+                          "max_retries": 4, "timeout": 90,
+                          "plan": [{"step": "/b", "tag": "0", "phase": "execute", "kind": "failstop", "count": 1, "lose": [["/b", "0"]],
+                                    "lose_files": [["/a", "0", f] for f in lost]}]})
         results = {}
-        for case, status, r in recov.run_cases(cases, timeout=300, workers=6):
+        for case, status, r in recov.run_cases(cases, timeout=300, workers=6, ctx=ctx):
             results[case["name"]] = (case, status, r)
         lines, meta = [], []
         for name, (case, status, r) in results.items():
